@@ -2,6 +2,11 @@ package props
 
 import (
 	"fmt"
+	"sort"
+	"strings"
+
+	coraza "github.com/corazawaf/coraza/v3"
+	"github.com/corazawaf/coraza/v3/experimental/plugins/plugintypes"
 	"time"
 
 	"github.com/corazawaf/coraza/v3/verifharness/eng"
@@ -48,4 +53,80 @@ func C01(run *vf.Run) {
 		Proj: eng.ProjOpts{FoldMDKeys: true}, Timeout: to, Workers: 3, Slices: 6})
 	eng.ReplayFamily(run, eng.FamilyOpts{Name: "chain", CfgText: engineCfg("chain", vf.Pick(run, 2, 3), vf.Pick(run, 1, 2), "{2}", `{"On"}`),
 		Proj: eng.ProjOpts{}, Timeout: to, Workers: 3, Slices: 6})
+	scaleMatchData(run, "select")
+}
+
+// scaleMatchData: in Engine.tla the match data of a fired rule is the bag of ALL satisfying triples, whatever
+// their number, and it does not depend on the order the collection is walked in. The scenario "every value of
+// the collection satisfies the operator" is replayed with K distinct keys (K crosses 100, 256, 1000, 65536)
+// several times on one WAF and on fresh ones: the rule must report exactly the K triples every time.
+func scaleMatchData(run *vf.Run, fam string) {
+	text := "SecRuleEngine On\nSecArgumentsLimit 70000\nSecRule ARGS_GET \"@contains v\" \"id:1,phase:1,pass,t:lowercase,setvar:tx.n=+1\"\nSecRule REQUEST_HEADERS:/^x-k/ \"@contains v\" \"id:2,phase:1,pass\"\n"
+	long, err := coraza.NewWAF(coraza.NewWAFConfig().WithDirectives(text))
+	if err != nil {
+		run.Inconclusive("scale configuration rejected: %v", err)
+		return
+	}
+	defer closeAny(long)
+	for _, k := range []int{1, 99, 100, 101, 150, 255, 256, 257, 1000, vf.Pick(run, 5000, 66000)} {
+		var first string
+		for rep := 0; rep < 4; rep++ {
+			w := long
+			if rep%2 == 1 {
+				w, err = coraza.NewWAF(coraza.NewWAFConfig().WithDirectives(text))
+				if err != nil {
+					run.Inconclusive("scale configuration rejected: %v", err)
+					return
+				}
+			}
+			tx := w.NewTransaction()
+			for i := 0; i < k; i++ {
+				tx.AddGetRequestArgument(fmt.Sprintf("k%d", i), fmt.Sprintf("V%d", i))
+				if i < 300 {
+					tx.AddRequestHeader(fmt.Sprintf("X-K%d", i), fmt.Sprintf("v%d", i))
+				}
+			}
+			tx.ProcessRequestHeaders()
+			got := map[int]map[string]int{1: {}, 2: {}}
+			for _, mr := range tx.MatchedRules() {
+				for _, md := range mr.MatchedDatas() {
+					if m := got[mr.Rule().ID()]; m != nil {
+						m[md.Key()+"="+md.Value()]++
+					}
+				}
+			}
+			n := ""
+			if ts, ok := tx.(plugintypes.TransactionState); ok {
+				if v := ts.Variables().TX().Get("n"); len(v) > 0 {
+					n = v[0]
+				}
+			}
+			_ = tx.Close()
+			if rep%2 == 1 {
+				closeAny(w)
+			}
+			run.Eval(fmt.Sprintf("scale-md-%d", k))
+			kh := k
+			if kh > 300 {
+				kh = 300
+			}
+			if len(got[1]) != k || len(got[2]) != kh || n != fmt.Sprint(k) {
+				run.Violate(vf.Violation{Signature: fam + ":scaled-instance|match-data-count", What: fmt.Sprintf("%d arguments (distinct names) all satisfy rule 1 and %d headers rule 2: the rules must report %d and %d triples and TX.n must be %d; reported %d and %d, TX.n=%q || %s", k, kh, k, kh, k, len(got[1]), len(got[2]), n, strings.ReplaceAll(text, "\n", " ; ")),
+					Replay: map[string]any{"family": "scale-match-data", "k": k, "directives": text}})
+				return
+			}
+			keys := make([]string, 0, k)
+			for x := range got[1] {
+				keys = append(keys, x)
+			}
+			sort.Strings(keys)
+			sum := vf.Hash(keys...)
+			if rep == 0 {
+				first = sum
+			} else if sum != first {
+				run.Violate(vf.Violation{Signature: fam + ":scaled-instance|match-data-varies", What: fmt.Sprintf("%d arguments all satisfying one rule: the set of reported triples differs between repetitions", k), Replay: map[string]any{"family": "scale-match-data", "k": k, "directives": text}})
+				return
+			}
+		}
+	}
 }
